@@ -262,6 +262,22 @@ theorem curRows_step (p : Option Nat) :
           | succ i =>
             simpa using h3 i row' cur' (by simpa using hrow') (by simpa using hcur')
 
+/-- the substituted row the next row is compared with -/
+def lastPrev (prev : Option Row) (curs : List Row) : Option Row :=
+  match curs.getLast? with
+  | some c => some c
+  | none => prev
+
+theorem lastPrev_cons (prev : Option Row) (cur : Row) (curs : List Row) :
+    lastPrev prev (cur :: curs) = lastPrev (some cur) curs := by
+  cases curs with
+  | nil => simp [lastPrev]
+  | cons c r =>
+    simp only [lastPrev, List.getLast?_cons_cons]
+    cases hg : (c :: r).getLast? with
+    | some x => rfl
+    | none => simp at hg
+
 theorem dataRows_spec {V : Type} (cv : Conv V) (cfg : Cfg V) (slots : List Slot) (p : Option Nat) :
     ∀ (rows : List Row) (prev : Option Row) (objs : List (Option (Obj V))) (err : Option Err),
       dataRows cv cfg slots p prev rows = ⟨objs, err⟩ →
@@ -272,7 +288,12 @@ theorem dataRows_spec {V : Type} (cv : Conv V) (cfg : Cfg V) (slots : List Slot)
         (∀ (i : Nat) cur o, curs[i]? = some cur → objs[i]? = some o →
           construct cv cfg.numId cfg.rules slots cur = .ok o) ∧
         (err = none → tail = [] ∨ ∃ t rest, tail = t :: rest ∧ endFires cfg.stop t = .ok true) ∧
-        (∀ e, err = some e → tail ≠ []) := by
+        (∀ e, err = some e → ∃ t rest, tail = t :: rest ∧
+          (endFires cfg.stop t = .error e ∨
+           (endFires cfg.stop t = .ok false ∧
+            (curRow p (lastPrev prev curs) t = .error e ∨
+             ∃ cur, curRow p (lastPrev prev curs) t = .ok cur ∧
+               construct cv cfg.numId cfg.rules slots cur = .error e)))) := by
   intro rows
   induction rows with
   | nil =>
@@ -284,27 +305,36 @@ theorem dataRows_spec {V : Type} (cv : Conv V) (cfg : Cfg V) (slots : List Slot)
     intro prev objs err h
     simp only [dataRows] at h
     split at h
-    · cases h
-      exact ⟨[], row :: rest, [], rfl, by simp, rfl, rfl, by simp, by simp, by simp⟩
+    · rename_i e hend
+      cases h
+      refine ⟨[], row :: rest, [], rfl, by simp, rfl, rfl, by simp, by simp, ?_⟩
+      intro e' he'; cases he'
+      exact ⟨row, rest, rfl, Or.inl hend⟩
     · rename_i hend
       cases h
       exact ⟨[], row :: rest, [], rfl, by simp, rfl, rfl, by simp,
         fun _ => Or.inr ⟨row, rest, rfl, hend⟩, by simp⟩
     · rename_i hend
       split at h
-      · cases h
-        exact ⟨[], row :: rest, [], rfl, by simp, rfl, rfl, by simp, by simp, by simp⟩
+      · rename_i e hcur
+        cases h
+        refine ⟨[], row :: rest, [], rfl, by simp, rfl, rfl, by simp, by simp, ?_⟩
+        intro e' he'; cases he'
+        exact ⟨row, rest, rfl, Or.inr ⟨hend, Or.inl (by simpa [lastPrev] using hcur)⟩⟩
       · rename_i cur hcur
         split at h
-        · cases h
-          exact ⟨[], row :: rest, [], rfl, by simp, rfl, rfl, by simp, by simp, by simp⟩
+        · rename_i e hcon
+          cases h
+          refine ⟨[], row :: rest, [], rfl, by simp, rfl, rfl, by simp, by simp, ?_⟩
+          intro e' he'; cases he'
+          exact ⟨row, rest, rfl, Or.inr ⟨hend, Or.inr ⟨cur, by simpa [lastPrev] using hcur, hcon⟩⟩⟩
         · rename_i o ho
           cases h
           obtain ⟨data, tail, curs, h1, h2, h3, h4, h5, h6, h7⟩ :=
             ih (some cur) (dataRows cv cfg slots p (some cur) rest).objs
               (dataRows cv cfg slots p (some cur) rest).err rfl
           refine ⟨row :: data, tail, cur :: curs, by simp [h1], ?_, by simp [curRows, hcur, h3],
-            by simp [h4], ?_, h6, h7⟩
+            by simp [h4], ?_, h6, ?_⟩
           · intro r hr
             simp only [List.mem_cons] at hr
             rcases hr with hr | hr
@@ -314,6 +344,7 @@ theorem dataRows_spec {V : Type} (cv : Conv V) (cfg : Cfg V) (slots : List Slot)
             cases i with
             | zero => simp at hc' ho'; subst hc'; subst ho'; exact ho
             | succ i => exact h5 i cur' o' (by simpa using hc') (by simpa using ho')
+          · rw [lastPrev_cons]; exact h7
 
 theorem iterTable_spec {V : Type} (cv : Conv V) (cfg : Cfg V) :
     ∀ (s : Sheet) (objs : List (Option (Obj V))) (err : Option Err),
@@ -635,5 +666,77 @@ theorem find_of_nodup (l : List Cell) (hnd : (l.map fun x => x.coord).Nodup) (ce
         exact List.mem_map.mpr ⟨cell, hm, rfl⟩
       simp only [List.find?_cons]
       simp [hne, ih hnd.2 hm]
+
+/-! ## when a row yields `None` -/
+
+theorem keyEmpty_true : ∀ (l : List Src), keyEmpty l = .ok true →
+    ∀ s ∈ l, ∃ c, s = .cell c ∧ c.val = .blank := by
+  intro l
+  induction l with
+  | nil => intro _ s hs; cases hs
+  | cons a as ih =>
+    intro h s hs
+    cases a with
+    | none => simp [keyEmpty] at h
+    | range n c => simp [keyEmpty] at h
+    | cell c =>
+      simp only [keyEmpty] at h
+      split at h
+      · rename_i hb
+        simp only [List.mem_cons] at hs
+        rcases hs with hs | hs
+        · exact ⟨c, hs, hb⟩
+        · exact ih h s hs
+      · cases h
+
+theorem construct_none {V : Type} (cv : Conv V) (numId : Nat) (rules : List (Rule V))
+    (slots : List Slot) (row : Row) (h : construct cv numId rules slots row = .ok none) :
+    0 < numId ∧ ∃ srcs, mapE (srcOf row) slots = .ok srcs ∧
+      ((∀ s ∈ srcs.take numId, ∃ c, s = .cell c ∧ c.val = .blank) ∨
+       (∃ attrs, zipInit cv rules srcs = .ok attrs ∧ numId ≤ rules.length ∧
+          ∀ a ∈ attrs.take numId, a.1.isNone cv = true)) := by
+  unfold construct at h
+  split at h
+  · cases h
+  · rename_i srcs hs
+    split at h
+    · cases h
+    · rename_i ke hke
+      split at h
+      · rename_i hc
+        simp only [Bool.and_eq_true, decide_eq_true_eq] at hc
+        obtain ⟨hk, hn⟩ := hc
+        subst hk
+        exact ⟨hn, srcs, hs, Or.inl (keyEmpty_true _ hke)⟩
+      · split at h
+        · cases h
+        · rename_i hlen
+          split at h
+          · cases h
+          · split at h
+            · cases h
+            · rename_i attrs ha
+              split at h
+              · rename_i hc
+                simp only [Bool.and_eq_true, decide_eq_true_eq] at hc
+                obtain ⟨hn, hk⟩ := hc
+                refine ⟨hn, srcs, hs, Or.inr ⟨attrs, ha, by omega, ?_⟩⟩
+                unfold keyIsNone at hk
+                rw [List.all_eq_true] at hk
+                exact hk
+              · cases h
+
+theorem srcOf_cell (row : Row) (sl : Slot) (c : Cell) (h : srcOf row sl = .ok (.cell c)) :
+    ∃ j, sl = .at j ∧ row[j]? = some c := by
+  cases sl with
+  | none => simp [srcOf] at h
+  | range n i =>
+    simp only [srcOf] at h
+    split at h <;> cases h
+  | «at» j =>
+    simp only [srcOf] at h
+    split at h
+    · rename_i c' hc; cases h; exact ⟨j, rfl, getCell_ok _ _ _ hc⟩
+    · cases h
 
 end Xls
